@@ -194,21 +194,32 @@ class Probes:
         from jedi.cache import _time_caches
         orig_sig = helpers.cache_signatures
         self.sig_trace = None
+        self.infer_calls = 0
+        orig_infer = helpers.infer
+
+        def counting_infer(*a, **kw):
+            me.infer_calls += 1
+            return orig_infer(*a, **kw)
+
+        helpers.infer = counting_infer
 
         def probe_sig(inference_state, context, bracket_leaf, code_lines, user_pos):
             dct = _time_caches.get('call_signatures_validity', {})
             vals_before = set(map(id, dct.values()))
+            calls_before = me.infer_calls
             res = orig_sig(inference_state, context, bracket_leaf, code_lines, user_pos)
             if me.sig_trace is not None:
                 path = context.get_root_context().py__file__()
                 stored = [k for k, v in dct.items() if id(v) not in vals_before]
-                # a stored key tells whether the regex matched; a hit stores nothing
+                # a stored key tells whether the regex matched; a hit returns a cached object
                 if stored:
                     matched, hit = stored[-1][1] is not None, False
                 elif path is None:
                     matched, hit = None, False
                 else:
-                    matched, hit = False, True     # only a comparable key (None component) can hit
+                    # only a comparable key (None component) can hit; nothing stored and no hit:
+                    # an unmatched key that is not cached at all
+                    matched, hit = False, me.infer_calls == calls_before    # a hit does not infer
                 me.sig_trace.append([list(bracket_leaf.start_pos), matched, hit, path is None])
             return res
 
